@@ -111,6 +111,10 @@ def gen(rng, tier, quarantine=()):
         # another probe on the same function is refused while the overrides are live:
         # the refusal must not disturb them
         bad = {"levels": [{"fn": qual, "caps": [], "sibs": []}], "focus": {"var": "nosuchvar", "as": "nosuchvar"}}
+        if rng.random() < 0.4:
+            # refused part-way: the chain runs through something that cannot be instrumented
+            bad = {"levels": [{"fn": qual, "caps": [], "sibs": []}, {"fn": "NOTFN", "caps": [], "sibs": []}],
+                   "focus": {"var": "#value", "as": "v"}}
         ops.append({"op": "mk", "id": "bad", "kind": "probe", "sels": [bad], "nojudge": True, "expect_refusal": True})
         ops.append({"op": "enter", "id": "bad"})
     tl = 24 if tier == "quick" else 48
